@@ -589,7 +589,25 @@ func (w *World) Files(oc *OutputCfg, ww *WeatherWorld) FileSet {
 	fs[pdir+"managementout_conf.yml"] = mgmtOutYAML
 	if ww != nil {
 		sep := ";"
-		for name, content := range ww.Files(w.Cfg.WeatherLayout, w.Cfg.NumHeader, w.FCode, w.eol(), ww.Spec.FirstDay, ww.Spec.LastDay, nil, sep) {
+		lo, hi := ww.Spec.FirstDay, ww.Spec.LastDay
+		var skip map[Day]bool
+		dropYear := 0
+		if f := w.WxFault; f != nil {
+			switch f.Kind {
+			case "end-early":
+				hi = f.Day
+			case "start-late":
+				lo = f.Day
+			case "gap":
+				skip = map[Day]bool{f.Day: true}
+			case "year-missing":
+				dropYear = f.Day.Year()
+			}
+		}
+		for name, content := range ww.Files(w.Cfg.WeatherLayout, w.Cfg.NumHeader, w.FCode, w.eol(), lo, hi, skip, sep) {
+			if dropYear != 0 && w.Cfg.WeatherLayout == 0 && strings.HasSuffix(name, "."+yearExt(dropYear)) {
+				continue
+			}
 			fs["weather/wx/"+name] = content
 		}
 	}
